@@ -85,6 +85,15 @@ def gen(tier, seed):
     add("conv_mismatch", "c06-mismatch", "conv_mismatch(a, 'A', 'B', (s1, t1, q1), (s2, t2, q2))",
         ["pre: 1e-3 < a < 1e3", "pre: -2 <= s1 <= 2 and -2 <= t1 <= 2 and -2 <= q1 <= 2 and -2 <= s2 <= 2 and -2 <= t2 <= 2 and -2 <= q2 <= 2", "pre: (s1, t1, q1) != (s2, t2, q2)"],
         "conversion to a different dimension raises for Units / UnitValue targets (both dimension vectors symbolic in [-2,2]^3)", args="a: float, s1: int, t1: int, q1: int, s2: int, t2: int, q2: int", timeout=120)
+    for (ua, ub) in (("A", "A"), ("B", "B"), ("G", "A")):
+        add("conv_mismatch_%s%s" % (ua, ub), "c06-mismatch", "conv_mismatch(a, %r, %r, (s1, t1, q1), (s2, t2, q2))" % (ua, ub),
+            ["pre: 1e-3 < a < 1e3", "pre: -2 <= s1 <= 2 and -2 <= t1 <= 2 and -2 <= q1 <= 2 and -2 <= s2 <= 2 and -2 <= t2 <= 2 and -2 <= q2 <= 2", "pre: (s1, t1, q1) != (s2, t2, q2)"],
+            "conversion to a different dimension raises for Units / UnitValue targets, source system %s and target system %s (same system: no scaling is needed, the dimension must still be checked)" % (ua, ub),
+            args="a: float, s1: int, t1: int, q1: int, s2: int, t2: int, q2: int", timeout=120, viol="conversion to a different dimension returns a value when source and target use the same unit system")
+    for k2, (d, d2) in enumerate([((1, 0, 0), (0, 1, 0)), ((2, -1, 0), (0, 0, 1)), ((0, 1, 0), (-3, 0, 1))]):
+        add("conv_mismatch_text_same_%d" % k2, "c06-mismatch", "conv_mismatch_text(a, 'A', 'A', %r, %r) and conv_mismatch_text(a, 'B', 'B', %r, %r)" % (d, d2, d, d2), ["pre: 1e-3 < a < 1e3"],
+            "conversion to unit TEXT of a different dimension raises when the text names the source's own units (%s -> %s), also through the UnitValue constructor" % (d, d2),
+            viol="conversion to a different dimension returns a value when source and target use the same unit system")
     for k2, (d, d2) in enumerate([((1, 0, 0), (0, 1, 0)), ((2, -1, 0), (2, -1, 1)), ((0, 0, 1), (-3, 0, 1)), ((1, -1, 0), (1, 1, 0)), ((0, 0, 0), (0, 0, 1))]):
         add("conv_mismatch_text_%d" % k2, "c06-mismatch", "conv_mismatch_text(a, 'A', 'B', %r, %r)" % (d, d2), ["pre: 1e-3 < a < 1e3"],
             "conversion to unit TEXT of a different dimension raises (%s -> %s)" % (d, d2))
